@@ -1483,6 +1483,21 @@ def gen_C19(rng, tier):
     for g in (gen_C04, gen_C05, gen_C10, gen_C11, gen_C12, gen_C15, gen_C08, gen_C09, gen_C13, gen_C20, gen_C16):
         L += subsample(rng, g(rng, "quick"), n // 2)
     L += subsample(rng, gen_C06(rng, "quick"), n // 3)
+    # the cfg-duplicated code paths, hit on purpose: hand-written PartialEq / manual abs on special values and on values closer
+    # than f32 epsilon; powf at its exact corner cases (0^0, 0^-1, 1^y, x^0) through the exponent stream and the EWMA
+    # (smoothing exactly 1 or 0 with repeated timestamps)
+    for a in SPECIAL_F + [f2h(5e-8), f2h(1.0 + 2 ** -23), f2h(0.3), f2h(-0.3)]:
+        for b in SPECIAL_F + [f2h(5e-8), f2h(1.0), f2h(0.3)]:
+            for op in ["eq", "cmp", "add", "sub", "mul", "div"]:
+                L.append("q %s Q:%s:1,0 Q:%s:1,0" % (op, a, b))
+        L.append("q abs Q:%s:1,0" % a)
+        L.append("q neg Q:%s:1,0" % a)
+    for base in ["00000000", "80000000", "3f800000", f2h(0.5), f2h(2.0), f2h(-2.0)]:
+        for ex in ["00000000", "bf800000", "3f800000", f2h(0.5), f2h(-0.5), f2h(2.0), f2h(3.0)]:
+            L.append("st exp S@1@%s S@2@%s" % (base, ex))
+    for sm in ["3f800000", "00000000", f2h(0.5)]:
+        for ty, v1, v2 in (("f", f2h(5.0), f2h(9.0)), ("q", q(5.0, 1, 0), q(9.0, 1, 0))):
+            L.append("ss ewma %s %s S@10@%s S@10@%s S@1000000010@%s S@1000000010@%s" % (ty, sm, v1, v2, v1, v2))
     rel = RELATIONS  # (relations of the individual generators are not used here)
     return L
 
@@ -1491,10 +1506,22 @@ POWF_LINE = ("ss ewma", "st exp")
 
 
 def line_mask_C19(c):
-    # the property exempts the power function (EWMA, exponent stream) when libm/micromath replaces std: values not compared there
-    if c.startswith(POWF_LINE):
-        return {"cat", "time", "unit"}
     return {"cat", "time", "unit", "float"}
+
+
+def config_tol_C19(cname, c):
+    """the property exempts 'the last ulps of the power function used by the EWMA and exponent streams when libm or micromath
+    replaces std': powf-dependent lines are compared with a bound instead of bit-for-bit in those configurations (libm: a few ulps;
+    micromath is a coarse approximation by design: 30 %). Gross differences (0 instead of 1, inf instead of 0, …) still count."""
+    if not c.startswith(POWF_LINE):
+        return None
+    if "libm" in cname:
+        return (1e-4, 1e-4)        # observed: <= 3e-6 absolute on values of magnitude <= 50 (lambda = 1 - powf(..) amplifies ulps)
+    if "micromath" in cname:
+        return "skip"     # micromath's powf is a coarse approximation (O(1) relative differences observed in the EWMA) and, in a
+                          # debug build, panics with an integer overflow inside micromath for a base of -0.0: third-party code the
+                          # property exempts; powf-dependent lines are not compared at all in the micromath configurations
+    return None
 
 
 def strip_units(tok):
@@ -1520,18 +1547,24 @@ def cross_C19(lines, outs):
         if c.startswith(INTROSPECT):
             continue
         for n in names:
+            if c.startswith(POWF_LINE) and config_tol_C19(n, c) == "skip":
+                continue
             if n not in chk_cfgs and "PANIC:dim" in row[n]:
                 bad.append((c, "dimension panic in the unchecked configuration %s" % n))
         ref_name = chk_cfgs[0] if chk_cfgs else names[0]
         ref = row[ref_name]
         if "PANIC:dim" in ref or " err" in (" " + ref) or ref.startswith("err"):
             continue            # ill-dimensioned program: only the no-panic clause applies
-        if c.startswith(POWF_LINE):
-            continue
         for n in names:
             if n == ref_name:
                 continue
             v, detail = compare_lines(strip_units(row[n]), strip_units(ref), {"cat", "time", "float"}, None, True)
+            if v == "hard" and c.startswith(POWF_LINE):
+                ct = config_tol_C19(n, c) or config_tol_C19(ref_name, c)
+                if ct == "skip":
+                    v = "same"
+                elif ct is not None and compare_lines(strip_units(row[n]), strip_units(ref), {"cat", "time", "float"}, ct, True)[0] in ("same", "soft"):
+                    v = "same"
             if v == "hard":
                 # rejections that only exist in checked builds (`err` from a unit test) are not numeric results
                 bad.append((c, "configuration %s differs from %s: %s" % (n, ref_name, detail)))
